@@ -761,7 +761,11 @@ func scenario(rec *mon.Recorder, c int) {
 		reg.mu.Unlock()
 	}
 	if !violated {
-		runCallers("concurrent", 24, 2)
+		rounds := 2
+		if repl > 1 {
+			rounds = 4 // writes enter through several replicas of one partition: more chances for their outcomes to cross
+		}
+		runCallers("concurrent", 24, rounds)
 	}
 	rec.Case(mon.Digest(desc), true)
 	if rec.WantSample() {
